@@ -1,5 +1,6 @@
 import Cdecao.Engine.Core
 import Cdecao.Engine.Term
+import Cdecao.Engine.Final
 /-! # C04 — the parallel search always terminates and accounts for every subproblem once -/
 namespace Props
 open Eng3
@@ -33,5 +34,43 @@ theorem C04_stats_step {c c' : Cfg ν σ} {st : Stats} {ev : Ev} (hl : LInv c) (
 theorem C04_bounded_work (W : ν → Nat) (hW : Budget W) {c c' : Cfg ν σ} {ev : Ev} (hs : step? c ev = some c') :
     Psi W c' + (if ev.isWake then 0 else 1) ≤ Psi W c + 3 * wakes c ev :=
   psi_step W hW hs
+
+/-- the statistics equations hold in every reachable state of the product system (configuration,
+    counters), started with `gen = 1` for the root -/
+theorem C04_stats_reach {root : ν} {top T : Nat} {c : Cfg ν σ} {st : Stats} (hT : 0 < T)
+    (hr : ReachS root top T (c, st)) : SInv c st :=
+  reachS_sinv hT hr
+
+/-- the ghost counter `panicked` is the number of workers that are `dying` or `dead` -/
+theorem C04_panicked {root : ν} {top T : Nat} {c : Cfg ν σ} {st : Stats}
+    (hr : ReachS root top T (c, st)) : st.panicked = c.pcs.countP isGone :=
+  reachS_pinv hr
+
+/-- every subproblem is accounted for exactly once: when all workers have stopped normally,
+    executed = no-solution + infeasible + feasible and generated = executed + bound -/
+theorem C04_stats_at_done {root : ν} {top T : Nat} {c : Cfg ν σ} {st : Stats} (hT : 0 < T)
+    (hr : ReachS root top T (c, st)) (hd : AllDone c) :
+    st.executed = st.noSol + st.infeasible + st.feasible ∧ st.gen = st.executed + st.bound :=
+  stats_at_done hT hr hd
+
+/-- with panics: when every worker has stopped, the generated subproblems not executed or bounded
+    are those left in the queue and one per dead worker -/
+theorem C04_stats_at_finished {root : ν} {top T : Nat} {c : Cfg ν σ} {st : Stats} (hT : 0 < T)
+    (hr : ReachS root top T (c, st)) (hd : AllFinished c) :
+    st.executed = st.noSol + st.infeasible + st.feasible ∧
+    st.gen = st.executed + st.bound + c.pending.length + st.panicked ∧
+    st.panicked = c.pcs.countP (fun pc => match pc with | .dead => true | _ => false) :=
+  stats_at_finished hT hr hd
+
+/-- a worker that has returned stays returned: `done` is absorbing -/
+theorem C04_done_absorbing {c c' : Cfg ν σ} {ev : Ev} (hs : step? c ev = some c') {t : Nat}
+    (hp : c.pcs[t]? = some Pc.done) : c'.pcs[t]? = some Pc.done :=
+  done_absorbing hs hp
+
+/-- `solve` returns normally (the join loop passes every worker) exactly when all are `done`, and
+    that verdict is final -/
+theorem C04_join {c c' : Cfg ν σ} (hs : Steps c c') (h : AllDone c) :
+    outcome c.pcs = some false ∧ outcome c'.pcs = some false :=
+  ⟨(outcome_false_iff_allDone c).2 h, outcome_stable hs ((outcome_false_iff_allDone c).2 h)⟩
 
 end Props
